@@ -1,5 +1,5 @@
 ------------------------------- MODULE Discovery ------------------------------
-(* One discovery run of GeckoAsyncLocator (C15).
+(* One discovery run of GeckoAsyncLocator, and of the blocking GeckoLocator (C15).
 
    Code (async_locator.py): discover() opens an endpoint, starts the hello consumer task
    (udp_protocol_handler.consume: one datagram per wake-up) and the broadcast loop, then
@@ -12,6 +12,11 @@
    delivers LOCATING_DISCOVERED_SPA and sets has_found_spa when an address or identifier
    was requested.
 
+   The blocking locator (locator.py: start_discovery(should_wait=True), replies handled by the
+   socket's engine thread, broadcasts by a retry thread) has the same loop and the same
+   de-duplication, but it does NOT apply the identifier filter to the list: every answering spa
+   is listed and only the requested one sets has_found_spa (ListsAll = TRUE).
+
    Time is in abstract units (Poll = 1 for model checking, milliseconds in traces).  The
    consumer and the discover loop wake independently (nextC, nextD); replies arrive at
    any time, any number of times.                                                      *)
@@ -20,34 +25,39 @@ EXTENDS Naturals, Sequences, FiniteSets, TLC
 CONSTANTS Spas,        \* identifiers that may answer
           Filter,      \* "none" | "addr" | an element of Spas \cup {"absent"} (identifier filter)
           Poll, Initial, Timeout,
-          MaxArrivals
+          MaxArrivals,
+          ListsAll     \* TRUE: the blocking locator (lists every answering spa whatever the identifier filter)
 
-VARIABLES now, queue, seen, spas, found, nextC, nextD, phase, ret, arrivals, consumedAt
+VARIABLES now, queue, seen, spas, found, nextC, nextD, phase, ret, arrivals, consumedAt, foundAt
 \* consumedAt[s] = time at which the first reply of s was consumed (0 = not yet)
-vars == <<now, queue, seen, spas, found, nextC, nextD, phase, ret, arrivals, consumedAt>>
+\* foundAt = time at which has_found_spa was set
+vars == <<now, queue, seen, spas, found, nextC, nextD, phase, ret, arrivals, consumedAt, foundAt>>
 
 Filtered == Filter # "none"
-Wanted(s) == Filter \in {"none", "addr"} \/ Filter = s
+Wanted(s) == ListsAll \/ Filter \in {"none", "addr"} \/ Filter = s
+\* a listed spa ends the search when an address was given or it is the requested one
+Finds(s) == Filter = "addr" \/ Filter = s
 
 Init == /\ now = 0 /\ queue = <<>> /\ seen = {} /\ spas = <<>> /\ found = FALSE
         /\ nextC = 0 /\ nextD = 0 /\ phase = "run" /\ ret = 0 /\ arrivals = 0
-        /\ consumedAt = [s \in Spas |-> 0]
+        /\ consumedAt = [s \in Spas |-> 0] /\ foundAt = 0
 
 Arrive(s) == /\ phase = "run" /\ arrivals < MaxArrivals
              /\ queue' = Append(queue, s) /\ arrivals' = arrivals + 1
-             /\ UNCHANGED <<now, seen, spas, found, nextC, nextD, phase, ret, consumedAt>>
+             /\ UNCHANGED <<now, seen, spas, found, nextC, nextD, phase, ret, consumedAt, foundAt>>
 
 \* one wake-up of the hello consumer
 Consume ==
   /\ phase = "run" /\ nextC = now
   /\ nextC' = now + Poll
-  /\ IF queue = <<>> THEN UNCHANGED <<queue, seen, spas, found, consumedAt>>
+  /\ IF queue = <<>> THEN UNCHANGED <<queue, seen, spas, found, consumedAt, foundAt>>
      ELSE LET s == Head(queue) IN
           /\ queue' = Tail(queue)
           /\ IF s \in seen \/ ~Wanted(s)
-             THEN UNCHANGED <<seen, spas, found, consumedAt>>
+             THEN UNCHANGED <<seen, spas, found, consumedAt, foundAt>>
              ELSE /\ seen' = seen \cup {s} /\ spas' = Append(spas, s)
-                  /\ found' = (found \/ Filtered)
+                  /\ found' = (found \/ Finds(s))
+                  /\ foundAt' = IF ~found /\ Finds(s) THEN now ELSE foundAt
                   /\ consumedAt' = [consumedAt EXCEPT ![s] = now]
   /\ UNCHANGED <<now, nextD, phase, ret, arrivals>>
 
@@ -57,11 +67,11 @@ Check ==
   /\ IF now >= Timeout \/ (now > Initial /\ spas # <<>>) \/ found
      THEN phase' = "done" /\ ret' = now /\ UNCHANGED nextD
      ELSE nextD' = now + Poll /\ UNCHANGED <<phase, ret>>
-  /\ UNCHANGED <<now, queue, seen, spas, found, nextC, arrivals, consumedAt>>
+  /\ UNCHANGED <<now, queue, seen, spas, found, nextC, arrivals, consumedAt, foundAt>>
 
 Advance == /\ phase = "run" /\ nextC > now /\ nextD > now
            /\ now' = now + 1
-           /\ UNCHANGED <<queue, seen, spas, found, nextC, nextD, phase, ret, arrivals, consumedAt>>
+           /\ UNCHANGED <<queue, seen, spas, found, nextC, nextD, phase, ret, arrivals, consumedAt, foundAt>>
 
 Next == (\E s \in Spas : Arrive(s)) \/ Consume \/ Check \/ Advance
 Spec == Init /\ [][Next]_vars
@@ -74,10 +84,11 @@ WithinTimeout == phase = "done" => ret <= Timeout + Poll
 \* returns as soon as the requested spa has answered: at the first check after consumption
 PromptWhenFiltered ==
   (phase = "done" /\ Filtered /\ spas # <<>>) => ret <= consumedAt[spas[1]] + Poll
+PromptWhenFound == (phase = "done" /\ found) => ret <= foundAt + Poll
 \* otherwise after the initial wait once any spa has answered
 PromptWhenAny ==
-  (phase = "done" /\ ~Filtered /\ spas # <<>>) =>
+  (phase = "done" /\ ~found /\ spas # <<>>) =>
      LET t1 == consumedAt[spas[1]]  base == IF t1 > Initial THEN t1 ELSE Initial IN ret <= base + Poll + 1
 NotEarly ==
-  (phase = "done" /\ ~Filtered) => (ret > Initial \/ ret >= Timeout)
+  (phase = "done" /\ ~found) => (ret > Initial \/ ret >= Timeout)
 ===============================================================================
